@@ -347,6 +347,34 @@ Section Question.
       end.
 End Question.
 
+(* A verification HISTORY: what one process does when it verifies several
+   questions one after the other (levy verify / export walking an exercise
+   directory).  The Go code keeps no process-wide state between questions
+   (runEvy evaluates afresh every time; the only cache, evySource.output,
+   lives inside one renderer of one question), so the loop threads nothing
+   from one question to the next: the accumulator only collects verdicts. *)
+Record question : Type := mkQuestion {
+  q_ignore : bool; q_privs : str; q_vm : vmode; q_fm : fm; q_is_src : bool;
+  q_outs : list str; q_gen : str; q_perrs : list bool
+}.
+
+Section History.
+  Variable SK : Type.
+  Variable parse_priv : str -> option SK.
+  Variable rsa_dec : SK -> bytes -> option bytes.
+  Variable gcm_open : bytes -> bytes -> option bytes.
+  Variable b64_dec : str -> option bytes.
+  Variable run : str -> str.
+
+  Definition verify_one (q : question) : res unit :=
+    question_verify SK parse_priv rsa_dec gcm_open b64_dec run verify_choice
+      (q_ignore q) (q_privs q) (q_vm q) (q_fm q) (q_is_src q) (q_outs q) (q_gen q) (q_perrs q).
+
+  (* for _, q := range questions { verdicts = append(verdicts, q.Verify()) } *)
+  Definition verify_history (qs : list question) : list (res unit) :=
+    fold_left (fun verdicts q => verdicts ++ [verify_one q]) qs [].
+End History.
+
 (* ------------------------------------------------------------------ *)
 (* closed instances                                                    *)
 (* ------------------------------------------------------------------ *)
